@@ -374,3 +374,7 @@ impl<K, V> Default for AddrMapInner<K, V> {
         }
     }
 }
+
+#[cfg(kani)]
+#[path = "/verif/kani/iroh/mapped_addrs.rs"]
+mod verif_kani;
